@@ -13,6 +13,7 @@ import (
 	"os"
 	"path/filepath"
 	"regexp"
+	"sort"
 	"strings"
 )
 
@@ -104,6 +105,24 @@ func fillTemplate(tmpl string, model map[string]string) (string, []string) {
 				return v
 			}
 			return goLiteral(v)
+		}
+		if strings.HasPrefix(key, "re:") {
+			// first model key (in sorted order) matching the regular expression
+			if re, err := regexp.Compile(key[3:]); err == nil {
+				var ks []string
+				for k := range model {
+					ks = append(ks, k)
+				}
+				sort.Strings(ks)
+				for _, k := range ks {
+					if re.MatchString(k) {
+						if raw {
+							return model[k]
+						}
+						return goLiteral(model[k])
+					}
+				}
+			}
 		}
 		if hasDef {
 			return def
